@@ -333,3 +333,43 @@ package rsm
 //@ modifies held(tq.mu), tq.tasks, elems(tq.tasks[len(tq.tasks):])
 //@ ensures tq.next == old(tq.next) && len(tq.tasks) == old(len(tq.tasks)) + 1 && tq.tasks[len(tq.tasks) - 1] == task
 //@ ensures forall j int :: 0 <= j && j < old(len(tq.tasks)) ==> tq.tasks[j] == old(tq.tasks[j])
+
+// ---------------------------------------------------------------- snapshot saving: lock discipline (C11 C18)
+// gconcurrent: whether the user state machine supports concurrent snapshotting (fixed per SM)
+//@ ghost field IManagedStateMachine.gconcurrent bool
+//@ iface (m IManagedStateMachine) Concurrent
+//@ ensures result == m.gconcurrent
+//@ iface (m IManagedStateMachine) Prepare
+//@ iface (m IManagedStateMachine) Sync
+
+//@ iface (sn ISnapshotter) Save
+//@ ensures true
+
+// the user SaveSnapshot of a plain (non-concurrent) state machine runs with the apply lock held,
+// so it can never overlap Update
+//@ func (s *StateMachine) doSave [C11]
+//@ noframe
+//@ requires s.sm != nil && s.snapshotter != nil
+//@ requires !s.sm.gconcurrent ==> held(s.mu) != 0
+//@ modifies s.snapshotIndex
+
+//@ func (s *StateMachine) save [C11 C08]
+//@ noframe
+//@ requires s.sm != nil && s.snapshotter != nil && s.sessions != nil
+//@ modifies held(s.mu), s.snapshotIndex
+//@ ensures held(s.mu) == 0
+
+//@ func (s *StateMachine) concurrentSave [C11 C08]
+//@ noframe
+//@ requires s.sm != nil && s.snapshotter != nil && s.sessions != nil && s.sm.gconcurrent
+//@ modifies held(s.mu), s.snapshotIndex, s.syncedIndex
+
+// C18: witnesses never take state machine snapshots; C11: the locked path is chosen for plain SMs
+//@ func (s *StateMachine) Save [C11 C18 C08]
+//@ noframe
+//@ requires s.sm != nil && s.snapshotter != nil && s.sessions != nil
+//@ modifies held(s.mu), s.snapshotIndex, s.syncedIndex
+//@ ensures !s.isWitness
+
+//@ func (s *StateMachine) getSSMeta [C11 C08]
+//@ trusted serialises the session table (bytes.Buffer, encoding/json, LRU cache): outside the subset; touches no lock
